@@ -28,10 +28,16 @@ func init() {
 var recursionExempt = map[string]string{}
 
 func runParserRecursionBounded(c *Ctx) {
-	p := c.Pkg("parser")
+	for _, rel := range []string{"parser", "regex/parser"} {
+		parserRecursionBounded(c, rel)
+	}
+}
+
+func parserRecursionBounded(c *Ctx, rel string) {
+	p := c.Pkg(rel)
 	info := p.TypesInfo
 	byObj := map[*types.Func]*FuncRef{}
-	c.Funcs("parser", func(fr *FuncRef) {
+	c.Funcs(rel, func(fr *FuncRef) {
 		if recvTypeName(fr.Decl) == "Parser" {
 			byObj[fr.Obj] = fr
 		}
@@ -60,7 +66,7 @@ func runParserRecursionBounded(c *Ctx) {
 		}
 	}
 	if guard == nil {
-		c.Bad("guard", p.Syntax[0].Pos(), "the parser has no method that counts the nesting of the constructs it parses and compares the count with a limit: every recursive production can be driven until the Go runtime aborts the process with a stack overflow")
+		c.Bad(rel+"/guard", p.Syntax[0].Pos(), "the parser has no method that counts the nesting of the constructs it parses and compares the count with a limit: every recursive production can be driven until the Go runtime aborts the process with a stack overflow")
 		return
 	}
 	guarded := map[*types.Func]bool{}
@@ -80,8 +86,8 @@ func runParserRecursionBounded(c *Ctx) {
 			return true
 		})
 	}
-	c.Stats["parser_methods"] = len(byObj)
-	c.Stats["parser_methods_calling_the_nesting_guard"] = len(guarded)
+	c.Stats[rel+"_methods"] = len(byObj)
+	c.Stats[rel+"_methods_calling_the_nesting_guard"] = len(guarded)
 	// Tarjan SCC on the graph without guarded functions
 	index := 0
 	idx := map[*types.Func]int{}
@@ -142,14 +148,14 @@ func runParserRecursionBounded(c *Ctx) {
 			strong(fn)
 		}
 	}
-	c.OK("guard", byObj[guard].Decl.Pos(), "%s counts the nesting; %d productions call it", guard.Name(), len(guarded))
+	c.OK(rel+"/guard", byObj[guard].Decl.Pos(), "%s counts the nesting; %d productions call it", guard.Name(), len(guarded))
 	for _, comp := range sccs {
 		var names []string
 		for _, f := range comp {
 			names = append(names, f.Name())
 		}
 		sort.Strings(names)
-		key := "cycle/" + names[0]
+		key := rel + "/cycle/" + names[0]
 		show := names
 		if len(show) > 8 {
 			show = append(show[:8:8], "...")
